@@ -38,10 +38,12 @@ FRAGMENT = [
     "get_maybe_uninit", "get_maybe_uninit_mut", "slices_uninit_mut", "as_slices", "as_mut_slices",
     "front", "back", "get", "front_mut", "back_mut", "get_mut", "nth_front", "nth_back",
     "push_back", "push_front", "try_push_back", "try_push_front", "pop_back", "pop_front",
-    "swap", "swap_remove_back", "swap_remove_front", "truncate_back", "truncate_front", "clear",
+    "swap", "swap_remove_back", "swap_remove_front",
+    "drop_range", "truncate_back", "truncate_front", "clear",
+    "remove", "make_contiguous",
 ]
 # methods outside the fragment that fragment functions call: hand-model name, argument shape
-EXTERN = {"drop_range": ("dropRange", "range")}
+EXTERN = {}
 ASSERT_TAG = {"i index out-of-bounds": "swap_i", "j index out-of-bounds": "swap_j"}
 LEAN_KW = {"end", "from", "at", "in", "do", "then", "else", "fun", "let", "have", "show", "open", "by",
            "match", "with", "if", "where", "instance", "class", "structure", "def", "theorem", "this"}
@@ -135,6 +137,9 @@ class Parser:
         self.eat("{")
         stmts, tail = [], None
         while not self.at("}"):
+            if self.at("struct") or self.at("impl"):
+                stmts.append(self.local_item())
+                continue
             if self.at("let"):
                 self.eat()
                 pat = self.pattern()
@@ -164,6 +169,29 @@ class Parser:
                 raise TErr(f"unexpected token {self.peek()[1]!r} after expression")
         self.eat("}")
         return ("block", stmts, tail)
+
+    def local_item(self):
+        """`struct Name<..>(..);` or `impl<..> Drop for Name<..> { fn drop(&mut self) { body } }` inside a body"""
+        kw = self.eat()
+        toks = []
+        if kw == "struct":
+            name = self.eat(kind="id")
+            while not self.at(";"):
+                toks.append(self.eat())
+            self.eat(";")
+            return ("item_struct", name, toks)
+        # impl ... { ... } : collect the token text up to the matching brace
+        while not self.at("{"):
+            toks.append(self.eat())
+        depth = 0
+        body = []
+        while True:
+            v = self.eat()
+            body.append(v)
+            depth += (v == "{") - (v == "}")
+            if depth == 0:
+                break
+        return ("item_impl", toks, body)
 
     def pattern(self):
         if self.at("("):
@@ -339,6 +367,8 @@ class Emit:
         self.fname = fname
         self.fragment = fragment
         self.tmp = 0
+        self.guards = set()   # local structs whose Drop impl drops a slice in place
+        self.scope_guards = []  # guard values declared in the function body, in declaration order
         self.kinds = {}       # variable -> kind ('nat','slot','elem','view','range','pair:view','opt:nat',...)
 
     def fresh(self, p="t"):
@@ -362,6 +392,8 @@ class Emit:
         if k == "field":
             if e[1] == ("path", "self") and e[2] in ("size", "start"):
                 return [], f"(← getBuf).{e[2]}", "nat"
+            if e[1][0] == "path" and self.kinds.get(e[1][1]) == "range" and e[2] in ("start", "end"):
+                return [], f"{lean_name(e[1][1])}.{1 if e[2] == 'start' else 2}", "nat"
             raise TErr(f"unsupported field access .{e[2]}")
         if k == "bin":
             pa, a, ka = self.ex(e[2])
@@ -444,9 +476,9 @@ class Emit:
             base, idx = inner[1], inner[2]
             if base == ("field", ("path", "self"), "items"):
                 if idx[0] == "range":
-                    if idx[1] is None or idx[2] is None:
-                        raise TErr("half-open slice of items")
-                    pa, a, _ = self.ex(idx[1])
+                    if idx[2] is None:
+                        raise TErr("slice of items without an upper bound")
+                    pa, a, _ = self.ex(idx[1]) if idx[1] is not None else ([], "0", "nat")
                     pb, b, _ = self.ex(idx[2])
                     t = self.fresh("v")
                     return pa + pb + [f"let {t} ← liftE (View.sub (View.all (← getBuf).cap) {par(a)} {par(b)})"], t, "view"
@@ -494,6 +526,19 @@ class Emit:
             if kk != "view":
                 raise TErr("slice_assume_init on a non-slice")
             return p, v, "view"
+        if name == "ptr::copy":
+            pa, a, ka = self.ex(args[0])
+            pb, b, kb = self.ex(args[1])
+            pc, c, kc = self.ex(args[2])
+            if ka != "ptr" or kb != "ptr":
+                raise TErr("ptr::copy on something other than pointers into items")
+            return pa + pb + pc + [f"setItems (copy (← getBuf).items {par(a)} {par(b)} {par(c)})"], "()", "unit"
+        if name in self.guards:
+            # `Dropper(slice)`: a value whose destructor drops the elements of the slice in place
+            p, v, kk = self.ex(args[0])
+            if kk != "view":
+                raise TErr(f"{name}(..) on a non-slice")
+            return p, v, "guard"
         if name == "ptr::swap_nonoverlapping":
             if args[2] != ("num", "1"):
                 raise TErr("swap_nonoverlapping count")
@@ -526,8 +571,24 @@ class Emit:
                 return pre + [call], "()", "unit"
             t = self.fresh("r")
             return pre + [f"let {t} ← {call}"], t, ret
+        if recv == ("field", ("path", "self"), "items"):
+            if name == "as_mut_ptr" and not args:
+                return [], "0", "ptr"
+            if name == "rotate_left":
+                p, k, _ = self.ex(args[0])
+                t = self.fresh("k")
+                # `rotate_left(mid)` asserts `mid <= len`
+                return p + [f"let {t} := {k}", f"if {t} ≤ (← getBuf).cap then pure () else raise .oob",
+                            f"setItems (rotl (← getBuf).items (← getBuf).cap {t})"], "()", "unit"
+            raise TErr(f"unsupported method .{name}() on items")
+        if recv[0] == "path" and self.kinds.get(recv[1]) == "range" and name == "is_empty" and not args:
+            n = lean_name(recv[1])
+            return [], f"¬ ({n}.1 < {n}.2)", "prop"
         # methods on values
         p, v, kk = self.ex(recv)
+        if name == "add" and kk == "ptr":
+            p2, b, _ = self.ex(args[0])
+            return p + p2, f"{par(v)} + {par(b)}", "ptr"
         if name in ("assume_init_ref", "assume_init_mut"):
             if kk != "slot":
                 raise TErr(f".{name}() on a non-slot")
@@ -553,8 +614,27 @@ class Emit:
 
     # statements -> list of do-lines
     def stmt(self, s):
+        if s[0] == "item_struct":
+            self.pending_struct = s[1]
+            return []
+        if s[0] == "item_impl":
+            head, body = " ".join(s[1]), " ".join(s[2])
+            m = re.search(r"Drop for (\w+)", head)
+            if not m:
+                raise TErr("local impl other than Drop")
+            want = "ptr::drop_in_place ( slice_assume_init_mut ( self . 0 ) )"
+            if want not in body:
+                raise TErr("unrecognised Drop impl of a local guard struct")
+            self.guards.add(m.group(1))
+            return []
         if s[0] == "let":
             pat, e = s[1], s[2]
+            if e[0] == "call" and e[1] in self.guards:
+                p, v, kk = self.ex(e)
+                if pat[0] != "pvar" or not pat[1].startswith("_"):
+                    raise TErr("guard bound to a used name")
+                self.scope_guards.append(v)
+                return p
             if e[0] == "try":
                 raise TErr("`?` must be handled by the caller")
             if e[0] == "if":
@@ -775,6 +855,7 @@ def lean_type(rt):
         "Option<T>": ("Option Elem", "opt"), "Option<&T>": ("Option Nat", "opt"), "Option<&mut T>": ("Option Nat", "opt"),
         "Result<(), T>": ("Except Elem Unit", "res"),
         "&MaybeUninit<T>": ("Nat", "slot"), "&mut MaybeUninit<T>": ("Nat", "slot"),
+        "&mut [T]": ("View", "view"), "&[T]": ("View", "view"),
         "(&[T], &[T])": ("View × View", "tuple:view,view"), "(&mut [T], &mut [T])": ("View × View", "tuple:view,view"),
         "(&mut [MaybeUninit<T>], &mut [MaybeUninit<T>])": ("View × View", "tuple:view,view"),
     }
@@ -815,6 +896,7 @@ def parse_sig(sig):
 
 def translate(src, name, fragment):
     sig, body = find_fn(src, name)
+    body = re.sub(r"#!?\[[^\]]*\]", "", body)          # attributes inside the body
     params, (rty, rkind) = parse_sig(sig)
     ast = Parser(tokenize(body)).block()
     em = Emit(name, fragment)
@@ -822,6 +904,16 @@ def translate(src, name, fragment):
         em.kinds[n] = kk
     # Bool-valued tail (is_empty, is_full): decide
     lines = em.body(ast[1], ast[2])
+    if em.scope_guards:
+        # only the shape "guards declared at the end of the body, unit result" is supported
+        if rty != "Unit" or not lines or lines[-1].strip() != "pure ()":
+            raise TErr("scope guards in a function of unsupported shape")
+        g = list(reversed(em.scope_guards))
+        term = f"dropInPlace {g[-1]}.slots"
+        for v in reversed(g[:-1]):
+            term = f"tryFinally (dropInPlace {v}.slots) ({term})"
+        indent = re.match(r"\s*", lines[-1]).group(0)
+        lines = lines[:-1] + [indent + term]
     if rty == "Bool":
         lines = [re.sub(r"^pure \((.*)\)$", r"pure (decide (\1))", l) if l.startswith("pure (") else l for l in lines]
     ps = "".join(f" ({lean_name(n)} : {t})" for n, t, _ in params)
